@@ -1,0 +1,157 @@
+//! verification hook (feature `verif`): read-only canonical dump of runtime values.
+//! Lazy natives are forced through their ordinary `get`/`iter` paths.
+use crate::builtin::generators::XGenerator;
+use crate::builtin::mapping::XMapping;
+use crate::builtin::optional::XOptional;
+use crate::builtin::sequence::XSequence;
+use crate::builtin::set::XSet;
+use crate::builtin::stack::XStack;
+use crate::root_runtime_scope::{EvaluatedValue, RootEvaluationScope, RuntimeResult};
+use crate::runtime_scope::RuntimeScope;
+use crate::util::lazy_bigint::LazyBigint;
+use crate::xvalue::{ManagedXValue, XValue};
+use crate::RTCell;
+use serde_json::{json, Value};
+use std::rc::Rc;
+
+#[derive(Debug, Clone, Copy)]
+pub struct DumpOptions {
+    /// maximal number of nodes in the whole dump
+    pub max_nodes: usize,
+    /// maximal nesting depth
+    pub max_depth: usize,
+    /// how many elements of an infinite sequence / of a generator are forced
+    pub lazy_prefix: usize,
+}
+
+impl Default for DumpOptions {
+    fn default() -> Self {
+        Self {
+            max_nodes: 4096,
+            max_depth: 12,
+            lazy_prefix: 16,
+        }
+    }
+}
+
+struct Dumper<'a, W, R, T> {
+    ns: &'a RuntimeScope<'a, W, R, T>,
+    rt: RTCell<W, R, T>,
+    opts: DumpOptions,
+    nodes: usize,
+}
+
+impl<'a, W: 'static, R: 'static, T: 'static> Dumper<'a, W, R, T> {
+    fn result(
+        &mut self,
+        v: &Result<Rc<ManagedXValue<W, R, T>>, Rc<crate::xvalue::ManagedXError<W, R, T>>>,
+        depth: usize,
+    ) -> RuntimeResult<Value> {
+        match v {
+            Ok(v) => self.value(v, depth),
+            Err(e) => Ok(json!({"err": e.error})),
+        }
+    }
+
+    fn items(
+        &mut self,
+        it: impl Iterator<Item = Rc<ManagedXValue<W, R, T>>>,
+        depth: usize,
+    ) -> RuntimeResult<Vec<Value>> {
+        let mut out = Vec::new();
+        for i in it {
+            out.push(self.value(&i, depth + 1)?);
+        }
+        Ok(out)
+    }
+
+    fn value(&mut self, v: &Rc<ManagedXValue<W, R, T>>, depth: usize) -> RuntimeResult<Value> {
+        self.nodes += 1;
+        if self.nodes > self.opts.max_nodes || depth > self.opts.max_depth {
+            return Ok(json!({"cut": true}));
+        }
+        Ok(match &v.value {
+            XValue::Int(i) => json!({
+                "i": i.to_string(),
+                "rep": match i { LazyBigint::Short(_) => "S", LazyBigint::Long(_) => "L" },
+            }),
+            XValue::Float(f) => json!({"f": format!("{:016x}", f.to_bits()), "txt": format!("{f:?}")}),
+            XValue::String(s) => json!({"s": s.as_str(), "n": s.len()}),
+            XValue::Bool(b) => json!({ "b": b }),
+            XValue::Function(_) => json!({"fn": 1}),
+            XValue::StructInstance(items) => {
+                json!({"st": self.items(items.iter().cloned(), depth)?})
+            }
+            XValue::UnionInstance((tag, payload)) => {
+                json!({"un": [tag, self.value(payload, depth + 1)?]})
+            }
+            XValue::Native(n) => {
+                let any = n.as_ref()._as_any();
+                if let Some(seq) = any.downcast_ref::<XSequence<W, R, T>>() {
+                    let len = seq.len();
+                    let count = len.unwrap_or(self.opts.lazy_prefix);
+                    let mut items = Vec::new();
+                    for idx in 0..count {
+                        if self.nodes > self.opts.max_nodes {
+                            items.push(json!({"cut": true}));
+                            break;
+                        }
+                        let item = seq.get(idx, self.ns, self.rt.clone())?;
+                        items.push(self.result(&item, depth + 1)?);
+                    }
+                    json!({"seq": items, "len": len})
+                } else if let Some(opt) = any.downcast_ref::<XOptional<W, R, T>>() {
+                    match &opt.value {
+                        None => json!({ "opt": Value::Null }),
+                        Some(v) => json!({"opt": [self.value(v, depth + 1)?]}),
+                    }
+                } else if let Some(stack) = any.downcast_ref::<XStack<W, R, T>>() {
+                    json!({"stack": self.items(stack.iter(), depth)?, "len": stack.length})
+                } else if let Some(set) = any.downcast_ref::<XSet<W, R, T>>() {
+                    let mut items = self.items(set.iter(), depth)?;
+                    items.sort_by_key(|v| v.to_string());
+                    json!({"set": items, "len": set.verif_len()})
+                } else if let Some(map) = any.downcast_ref::<XMapping<W, R, T>>() {
+                    let mut items = Vec::new();
+                    for (k, v) in map.iter() {
+                        items.push(json!([self.value(&k, depth + 1)?, self.value(&v, depth + 1)?]));
+                    }
+                    items.sort_by_key(|v| v.to_string());
+                    json!({"map": items, "len": map.verif_len()})
+                } else if let Some(gen) = any.downcast_ref::<XGenerator<W, R, T>>() {
+                    let mut items = Vec::new();
+                    let mut more = false;
+                    for (idx, item) in gen.iter(self.ns, self.rt.clone()).enumerate() {
+                        if idx >= self.opts.lazy_prefix || self.nodes > self.opts.max_nodes {
+                            more = true;
+                            break;
+                        }
+                        let item = item?;
+                        items.push(self.result(&item, depth + 1)?);
+                    }
+                    json!({"gen": items, "more": more})
+                } else {
+                    let mut txt = format!("{n:?}");
+                    txt.truncate(60);
+                    json!({ "opaque": txt })
+                }
+            }
+        })
+    }
+}
+
+/// canonical dump (JSON text) of an evaluated value; a violation raised while forcing a
+/// lazy part is returned as the error
+pub fn dump_value<W: 'static, R: 'static, T: 'static>(
+    scope: &RootEvaluationScope<'_, W, R, T>,
+    value: &EvaluatedValue<W, R, T>,
+    opts: DumpOptions,
+) -> RuntimeResult<String> {
+    let mut dumper = Dumper {
+        ns: scope.verif_scope(),
+        rt: scope.verif_runtime().clone(),
+        opts,
+        nodes: 0,
+    };
+    dumper.result(value, 0).map(|v| v.to_string())
+}
